@@ -25,7 +25,6 @@ const (
 	retryIntervalMs = 30
 	checkIntervalMs = 10
 	tickMs          = 40 // a Tick sleeps this long: every queued node becomes old enough
-	segmentLimitMs  = 22 // a tick-free segment must stay below this, otherwise the run is repeated
 	initRev         = 10
 	nKeys           = 4
 )
@@ -177,6 +176,12 @@ type Runner struct {
 	expectEv  int
 	usedUnk   bool
 	failure   string
+
+	// timing: lower bounds of the push times of the nodes in the retry queue, and the end of the last tick
+	fifo     []time.Time
+	lastTick time.Time
+	lastQ    int
+	tainted  bool
 }
 
 var keyNames = []string{"/r/ka", "/r/kb", "/r/kc", "/r/kd"}
@@ -405,6 +410,31 @@ func (r *Runner) list() (uint64, []KVObs, error) {
 // Exec executes one step and records what the implementation did.
 func (r *Runner) Exec(st Step) (o Obs) {
 	ctx := context.Background()
+	stepStart := time.Now()
+	defer func() {
+		// the age test of a retry iteration must agree with the script's clock: a head node pushed after the
+		// last tick is "young" in the model, so the iteration must have run less than the retry interval after
+		// the push (nodes pushed before a tick are at least tickMs old: always "old")
+		if (st.Kind == "retry" || st.Kind == "rget") && len(r.fifo) > 0 && r.fifo[0].After(r.lastTick) &&
+			time.Since(r.fifo[0]) > (retryIntervalMs-3)*time.Millisecond {
+			r.tainted = true
+		}
+		pops := 0
+		switch o.Retry {
+		case "success", "failed_put", "unknown_put", "unnecessary":
+			pops = 1
+		}
+		if pops > 0 && len(r.fifo) > 0 {
+			r.fifo = r.fifo[1:]
+		}
+		for n := o.Queue - r.lastQ + pops; n > 0; n-- {
+			r.fifo = append(r.fifo, stepStart)
+		}
+		r.lastQ = o.Queue
+		if st.Kind == "tick" {
+			r.lastTick = time.Now()
+		}
+	}()
 	switch st.Kind {
 	case "create", "update", "delete":
 		r.clientEnvs = append([]Env{}, st.Envs...)
@@ -555,19 +585,14 @@ func (r *Runner) Finish() []EvObs {
 func (r *Runner) Run(script []Step) Result {
 	t0 := time.Now()
 	res := Result{}
-	seg := time.Now()
 	for _, st := range script {
 		o := r.Exec(st)
 		res.Obs = append(res.Obs, o)
-		if st.Kind == "tick" {
-			seg = time.Now()
-		} else if time.Since(seg) > segmentLimitMs*time.Millisecond {
-			res.Tainted = true
-		}
 		if r.failure != "" {
 			break
 		}
 	}
+	res.Tainted = r.tainted
 	res.Failure = r.failure
 	res.Events = r.Finish()
 	res.WallMs = time.Since(t0).Milliseconds()
